@@ -15,7 +15,9 @@ def a(rx, variant, backing=None):
 
 
 a(r'minidump::minidump::read_cstring_utf8\|loop', 'each iteration performs a gread of one u8 that advances *offset by 1 and leaves the loop (ok()?) when offset reaches bytes.len()')
+a(r'MinidumpHandleDescriptor as scroll::ctx::TryFromCtx.*\|loop\|.*HashSet::insert seen_rvas object_info_rva', 'every iteration inserts a not-yet-seen u32 RVA into seen_rvas (the loop exits when insert() returns false) and needs a successful pread at that RVA, so iterations <= number of distinct readable offsets <= file length')
 a(r'MinidumpHandleDescriptor as scroll::ctx::TryFromCtx.*\|loop\|\(Ne object_info_rva 0\)', 'FIND: follows next_info_rva links with no visited set or budget: a self-referential link never terminates and grows a Vec')
+a(r'minidump::context::print_generic_context\|loop', 'for-loop over CpuRegisters, whose next() consumes exactly one item of a slice::Iter over REGISTERS or of a hash_set::Iter over the validity set (both finite) per call and returns None when that is exhausted')
 a(r'minidump::minidump::MinidumpMiscInfo::print\|loop\|\(discr \(<minidump_common::format::XstateFeatureIter', 'for-loop over XstateFeatureIter, whose next() strictly increases self.idx on every call and returns None once idx reaches features.len() (= 64)')
 a(r'XstateFeatureIter<\'_> as std::iter::Iterator>::next\|loop', 'while self.idx < features.len(): self.idx += 1 on every iteration')
 a(r'breakpad_symbols::http::fetch_lookup::\{closure#0\}\|loop', 'awaits res.chunk() until the HTTP body ends (Ok(None)) or a chunk / write fails; termination is the response stream\'s (trusted: reqwest), every iteration consumes one chunk')
